@@ -269,7 +269,8 @@ fn scaling_case(seed: u64, run: u64, k: usize, thorough: bool) -> Case {
         ("macro_uses", true) => 250,
         ("prints", false) => 300,
         ("prints", true) => 350,
-        (_, false) => 6_000,
+        // (quick: 4n = 70 000 lines, so that the big one also passes 65 535 instructions / labels / bytes)
+        (_, false) => 17_500,
         (_, true) => 100_000,
     };
     let big = scaling_program(family, 4 * n);
@@ -428,7 +429,31 @@ pub fn make_case(seed: u64, run: u64, thorough: bool, _stats: &mut Stats) -> Opt
     let nf = if r.chance(10) { 0 } else if r.chance(60) { 1 } else { r.urange(2, 3) };
     for _ in 0..nf {
         let len = src.len();
-        match r.below(20) {
+        match r.below(22) {
+            20 | 21 => {
+                // names in roles they were not made for: `start` as a data label, jumps and calls
+                // to data labels, offsets and memory operands of code labels, a procedure and a
+                // label of the same name, a macro named like a label, everything defined twice
+                let pieces: [&str; 14] = [
+                    "start: db 1", "buffer: db [16]", "start: dw [3]", "x: db 2", "x:", "def x { inc ax }", "macro x() -> inc bx <-",
+                    "jmp buffer", "call buffer", "call x", "mov ax, offset x", "mov al, byte x", "x()", "jmp x",
+                ];
+                let mut t = String::new();
+                let n = r.urange(3, 8);
+                for _ in 0..n {
+                    t.push_str(*r.pick(&pieces));
+                    t.push('\n');
+                }
+                if r.chance(50) {
+                    t.push_str("start:\n");
+                }
+                for _ in 0..r.urange(1, 4) {
+                    t.push_str(*r.pick(&["inc ax", "print reg", "jmp x", "call x", "x()", "mov bx, offset buffer", "hlt"]));
+                    t.push('\n');
+                }
+                src = t.into_bytes();
+                faults.push("label_roles".to_owned());
+            }
             18 | 19 => {
                 // one very long line: a statement (sound or not), then blanks up to a round byte
                 // offset where a multi-byte blank sits, then more
